@@ -1307,6 +1307,13 @@ fn oracle(plan: &Plan, out: &Outcome) -> Verdict {
             ));
             continue;
         }
+        // a frame whose trailer reports discarded/overrun data must not be delivered as Ok
+        if let Item::Data(tr) = &plan.script[items[t - 1]] {
+            if tr.len() >= 18 && u16::from_le_bytes([tr[16], tr[17]]) != 0 {
+                v.push((json!({"kind": "ok-despite-trailer-status"}),
+                    format!("Ok payload id {} although its trailer reports payload status {:#x}", r.id, u16::from_le_bytes([tr[16], tr[17]]))));
+            }
+        }
         let f = tg[0].unwrap().frame;
         if let Some(lf) = last_frame {
             if f <= lf {
@@ -1418,7 +1425,14 @@ struct Totals {
     rejected: u64,
 }
 
+static HANGS: std::sync::atomic::AtomicUsize = std::sync::atomic::AtomicUsize::new(0);
+
 fn run_spec(rep: &mut Report, tot: &mut Totals, queue: &mut Vec<(String, Spec)>, spec: &Spec, src: &str) {
+    // every hung session costs a watchdog period and leaves stuck threads behind: two are enough
+    if HANGS.load(std::sync::atomic::Ordering::SeqCst) >= 2 {
+        rep.count("skipped-after-two-hung-sessions");
+        return;
+    }
     let mut plan = gen_plan(spec);
     let t0 = Instant::now();
     let mut out = run_session(&plan);
@@ -1463,6 +1477,7 @@ fn run_spec(rep: &mut Report, tot: &mut Totals, queue: &mut Vec<(String, Spec)>,
     }
     if hang {
         // threads may be stuck: report and leave
+        HANGS.fetch_add(1, std::sync::atomic::Ordering::SeqCst);
         return;
     }
     if plan.kill_at_top.is_none() {
